@@ -217,6 +217,11 @@ def do_check(run: Run, args):
             run.solver_max = max(run.solver_max, r.get("seconds_total", r.get("seconds", 0.0)))
             if r.get("disagreement"):
                 run.checker_errors.append(f"solver disagreement on {fn}.{o.clause}: {r.get('tried')}")
+        if rep.unit is not None:
+            seen_clauses = {cl for (cl, kind) in agg if kind in ("ensures", "ensures-exc")}
+            for cl in list(c.ensures) + list(getattr(c, "ensures_exc", {}) or {}):
+                if cl not in seen_clauses:
+                    run.checker_errors.append(f"vacuity: {fn}.{cl} generated no obligation (no path reaches the exit this clause speaks about)")
         for (cl, kind), lst in agg.items():
             if kind == "cover":
                 ok = any(r["result"] == "sat" for _, r in lst)
@@ -420,6 +425,9 @@ def _native_stage(i):
         cases = NATIVE.sample_prestates(ctx, c, unit, n_here, _NG["seed"], rep.shapes)
     except Exception as e:
         return [], {}, f"{type(e).__name__}: {e}"
+    # fixed witness inputs of the contract (always run, whatever the sampler draws)
+    for k, exv in enumerate(c.native.get("examples", [])):
+        cases.append({"id": f"example{k}", "values": dict(exv), "alias": []})
     if not cases:
         return [], {}, None
     job = NATIVE.job_for(ctx, c, unit, cases, shapes=rep.shapes)
